@@ -29,8 +29,6 @@ UNPROVED = ["backward stability of the IEEE binary64 / Complex<f64> instance its
             "standard model of floating-point arithmetic (arbitrary real operations with relative error <= u per operation, no underflow/overflow) for the same "
             "Gallina function tsolve; that binary64 (u = 2^-53) satisfies that model away from underflow/overflow is textbook and not re-proved here, and the "
             "complex operators are not covered by it.  The IEEE instance is tied bit-for-bit to the implementation and searched",
-            "in the rounding model, that a diagonally dominant system is never REFUSED (proved over the exact reals: thomas_dominant_never_refuses; in the "
-            "rounding model the theorems speak of the answer whenever solve answers)",
             "accuracy of the f64 det (searched: 1e-11 * perm|T|)",
             "operand non-mutation / owned=borrowed product forms are run-time observations of the executor"]
 
@@ -47,7 +45,7 @@ MANIFEST = dict(
           "bounds/underflow/division panic, and whatever it answers satisfies the local recurrences of the algorithm (thomas_trace); over the "
           "reals a strictly diagonally dominant system is never refused; in the standard model of floating-point arithmetic (relative error "
           "u <= 1/64 per operation) the computed x solves (T+dT)x = r exactly with |dT| <= u(3|a|, 5|b|+9|a*gamma|, 5|c|), and |gamma| <= 1, "
-          "i.e. |dT| = O(u)|T|, for diagonally dominant T (with margin).  The same definitions are run against the implementation for "
+          "i.e. |dT| = O(u)|T|, for diagonally dominant T (with margin), and a strictly dominant T (with margin) is never refused there either.  The same definitions are run against the implementation for "
           "n = 1..12 over Rat (exact; panic class and refusal message compared), f64 and Complex<f64> (bit-compared with Coq's primitive "
           "floats), and a dense Fraction reference searches for a failing input."),
     note=("Proved: all of the above about the model.  Tied/searched only: that the model is the code (differential execution on every run); "
